@@ -1,7 +1,52 @@
 import BareProofs.C16Lemmas
+import BareModel.Gen.Args
+import BareModel.Gen.Regex
+
+/-!
+# C16 — datetime construction, arithmetic and ISO text are correct in any time zone
+
+Property theorems (model: `BareModel/Datetime.lean`; calendar lemmas: `BareProofs/C16Lemmas.lean`):
+
+* `args_table`, `regex_table`  the generated `_DATETIME_NEW_ARGS` model / ISO regex sources are the ones the model was written for
+* `ord2ymd_sound`, `ord2ymd_ymd2ord`, `ymd2ord_inj`, `year_range_iff` (in C16Lemmas)  CPython's `_ord2ymd`/`_ymd2ord` are mutually
+  inverse on EVERY integer ordinal / valid date, and years 1..9999 are exactly ordinals 1..3652059 — this is what gives the
+  spec layer its meaning
+* `datetimeNewCore_is_ordinal_arithmetic`, `datetimeNew_is_ordinal_arithmetic`  for ALL integer arguments the carry chain + month
+  normalisation + day loops equal ordinal arithmetic; `none` (null) exactly when the instant leaves years 1..9999
+* `getters_roundtrip`  the result is well formed, its parts recompose to the instant, re-normalising is the identity
+* `add_sub_ms`, `add_none_iff`, `add_zero`, `add_add`  `(d + n) − d = n` on the integer-millisecond model
+* `iso_roundtrip_partial`  `parse (format t) = t` — PARTIAL: the zone is two abstract offset functions and the property's
+  carve-outs are explicit hypotheses (see the theorem); `iso_offset_seconds_lost` shows the whole-minute hypothesis is needed
+* `iso_reject`, `iso_reject_fields`  the parser returns null outside the two anchored ASCII shapes and for invalid fields
+* `round_ms_exact_partial`  the float path of `datetime − datetime` returns exactly `n` for |n| ≤ 10¹² — PARTIAL: relative-error
+  model of IEEE doubles over ℚ, not bit-level floats
+-/
 
 open Datetime
 namespace C16
+
+/-! ### the generated tables the model depends on -/
+
+def argModel (name : String) (default : Option String) (lte gte : Option Int) : Gen.ArgModel :=
+  { name := name, type := some "number", nullable := false, default := default, lastArgArray := false, integer := true,
+    lt := none, lte := lte, gt := none, gte := gte }
+
+/-- `_DATETIME_NEW_ARGS` as extracted from the working tree is the argument model `datetimeNew` validates against -/
+theorem args_table : Gen.argModels.lookup "_DATETIME_NEW_ARGS" = some [
+    argModel "year" none none (some yearGte), argModel "month" none none none, argModel "day" none (some dayLte) (some dayGte),
+    argModel "hour" (some "0") none none, argModel "minute" (some "0") none none, argModel "second" (some "0") none none,
+    argModel "millisecond" (some "0") none none] := by decide +kernel
+
+/-- the ISO regex sources (and flags: 256 = re.ASCII) the hand-written scanners/formatter were written for -/
+theorem regex_table :
+    Gen.regexes.lookup "value._R_DATE" = some ("^(?P<year>\\d{4})-(?P<month>\\d{2})-(?P<day>\\d{2})\\Z", 256) ∧
+    Gen.regexes.lookup "value._R_DATETIME" =
+      some ("^\\d{4}-\\d{2}-\\d{2}T\\d{2}:\\d{2}:\\d{2}(?:\\.\\d{1,6})?(?:Z|[+-]\\d{2}:[0-5]\\d)\\Z", 256) ∧
+    Gen.regexes.lookup "value._R_DATETIME_ZULU" = some ("Z\\Z", 32) ∧
+    Gen.regexes.lookup "value._R_DATETIME_MICROSECOND" = some ("\\.(\\d{6})", 32) ∧
+    Gen.regexes.lookup "value._R_DATETIME_TZ_CLEANUP" = some ("([+-]\\d\\d:\\d\\d):\\d\\d$", 32) := by decide +kernel
+
+/-! ### `datetimeNew` = ordinal arithmetic -/
 
 theorem carry_1000 (x y : Int) : carry x y 1000 = (x % 1000, y + x / 1000) := by
   unfold carry; rw [pyFloorDiv_pos _ (by decide)]
@@ -54,11 +99,25 @@ theorem datetimeNewCore_is_ordinal_arithmetic (y mo d h mi s ms : Int) :
   · have h2 : ¬ (1 ≤ ymd2ord y' m' d' ∧ ymd2ord y' m' d' ≤ maxOrdinal) := fun c => hy (hrange.2 c)
     rw [if_neg h2, if_neg (by omega)]
 
+/-- non-vacuity: month 14, day −3, 25 h, 61 min, 61 s, 1001 ms all normalise (both layers computed by the kernel) -/
+example : datetimeNewCore 2024 14 (-3) 25 61 61 1001 = some ⟨2025, 1, 29, 2, 2, 2, 1⟩ ∧
+    datetimeNewSpec 2024 14 (-3) 25 61 61 1001 = some ⟨2025, 1, 29, 2, 2, 2, 1⟩ := by decide +kernel
+/-- the `while day > month_days` loop across a leap February; the `while day < 1` loop across a year boundary -/
+example : datetimeNewCore 2024 1 60 0 0 0 0 = some ⟨2024, 2, 29, 0, 0, 0, 0⟩ ∧
+    datetimeNewCore 2023 1 60 0 0 0 0 = some ⟨2023, 3, 1, 0, 0, 0, 0⟩ ∧
+    datetimeNewCore 2024 1 (-366) 0 0 0 (-1) = some ⟨2022, 12, 29, 23, 59, 59, 999⟩ := by decide +kernel
+/-- the failure branch: one millisecond past 9999-12-31T23:59:59.999, and a month far in the past -/
+example : datetimeNewCore 9999 12 31 23 59 59 1000 = none ∧ datetimeNewSpec 9999 12 31 23 59 59 1000 = none ∧
+    datetimeNewCore 100 (-1200) 1 0 0 0 0 = none ∧ datetimeNewCore 9999 12 31 23 59 59 999 ≠ none := by decide +kernel
+
 /-- the same with the argument validation of `_DATETIME_NEW_ARGS` in front (what a script call does) -/
 theorem datetimeNew_is_ordinal_arithmetic (y mo d h mi s ms : Int) :
     datetimeNew y mo d h mi s ms =
       if yearGte ≤ y ∧ dayGte ≤ d ∧ d ≤ dayLte then datetimeNewSpec y mo d h mi s ms else none := by
   unfold datetimeNew; rw [datetimeNewCore_is_ordinal_arithmetic]
+
+example : datetimeNew 99 1 1 0 0 0 0 = none ∧ datetimeNew 2024 1 10001 0 0 0 0 = none ∧
+    datetimeNew 100 (-30) (-10000) (-5000) (-5000) (-5000) (-5000) = some ⟨69, 6, 15, 3, 16, 35, 0⟩ := by decide +kernel
 
 /-! ### getters, and the integer-millisecond instant model -/
 
@@ -150,11 +209,21 @@ theorem getters_roundtrip {y mo d h mi s ms : Int} {t : DT} (hnew : datetimeNewC
     rw [k5]
     exact fromOrdinalMs_of_valid hs.1
 
+example : (⟨2025, 1, 29, 2, 2, 2, 1⟩ : DT).Valid ∧
+    datetimeNewCore 2025 1 29 2 2 2 1 = some ⟨2025, 1, 29, 2, 2, 2, 1⟩ ∧
+    toLocalMs ⟨2025, 1, 29, 2, 2, 2, 1⟩ = (ymd2ord 2025 2 1 - 1 + (-3 - 1)) * msPerDay + (((25 * 60 + 61) * 60 + 61) * 1000 + 1001) := by
+  decide +kernel
+
 /-- **C16 / arithmetic.** Adding an integral number `n` of milliseconds and then subtracting the original datetime
 gives `n` (whenever the sum is a datetime at all, i.e. stays within years 1..9999; otherwise the sum is `null`). -/
 theorem add_sub_ms {t t' : DT} {n : Int} (h : addMs t n = some t') : subMs t' t = n ∧ t'.Valid := by
   have := toLocalMs_ofLocalMs h
   exact ⟨by simp only [subMs, this.2]; omega, this.1⟩
+
+example : addMs ⟨2024, 2, 29, 0, 0, 0, 0⟩ 1000000000000 = some ⟨2055, 11, 7, 1, 46, 40, 0⟩ ∧
+    subMs ⟨2055, 11, 7, 1, 46, 40, 0⟩ ⟨2024, 2, 29, 0, 0, 0, 0⟩ = 1000000000000 ∧
+    addMs ⟨2024, 3, 1, 0, 0, 0, 0⟩ (-1) = some ⟨2024, 2, 29, 23, 59, 59, 999⟩ ∧
+    addMs ⟨9999, 12, 31, 23, 59, 59, 999⟩ 1 = none := by decide +kernel
 
 /-- the sum is `null` exactly when it leaves years 1..9999 -/
 theorem add_none_iff (t : DT) (n : Int) :
@@ -169,5 +238,342 @@ theorem add_zero {t : DT} (hv : t.Valid) : addMs t 0 = some t := by
 theorem add_add {t t' : DT} {a b : Int} (h : addMs t a = some t') : addMs t' b = addMs t (a + b) := by
   have := toLocalMs_ofLocalMs h
   simp only [addMs, this.2, Int.add_assoc]
+
+
+/-! ### ISO text: `parse (format t) = t` -/
+
+theorem digit_ofNat : ∀ r : Nat, r < 10 → digit? (Char.ofNat (48 + r)) = some r := by decide
+
+theorem digit?_digitChar (k : Nat) : digit? (digitChar k) = some (k % 10) :=
+  digit_ofNat (k % 10) (Nat.mod_lt _ (by decide))
+
+theorem num2?_pad {n : Nat} (h : n < 100) : num2? (digitChar (n / 10)) (digitChar n) = some n := by
+  simp only [num2?, digit?_digitChar, Option.bind_eq_bind, Option.bind_some, Option.pure_def, Option.some.injEq]
+  omega
+
+theorem num4?_pad {n : Nat} (h : n < 10000) :
+    num4? (digitChar (n / 1000)) (digitChar (n / 100)) (digitChar (n / 10)) (digitChar n) = some n := by
+  simp only [num4?, num2?, digit?_digitChar, Option.bind_eq_bind, Option.bind_some, Option.pure_def, Option.some.injEq]
+  omega
+
+theorem sign_not_digit (o : Int) : (digit? (if o < 0 then '-' else '+')).isSome = false := by
+  split <;> decide
+
+theorem zone_fmtOffset {o : Int} (hmin : o % 60 = 0) (h1 : -86400 < o) (h2 : o < 86400) : zone? (fmtOffset o) = some o := by
+  have ha : o.natAbs < 86400 := by omega
+  have hh : o.natAbs / 3600 < 100 := by omega
+  have hm : o.natAbs / 60 % 60 < 100 := by omega
+  simp only [fmtOffset, pad2, List.cons_append, List.nil_append, zone?]
+  rw [num2?_pad hh, num2?_pad hm]
+  have c1 : o.natAbs / 3600 ≤ 23 ∧ o.natAbs / 60 % 60 ≤ 59 := by omega
+  simp only [Option.bind_eq_bind, Option.bind_some, c1, and_self, if_true]
+  have e : o.natAbs / 3600 * 3600 + o.natAbs / 60 % 60 * 60 = o.natAbs := by
+    have : o.natAbs / 3600 = o.natAbs / 60 / 60 := by rw [Nat.div_div_eq_div_mul]
+    have : o.natAbs % 60 = 0 := by omega
+    omega
+  rw [e]
+  by_cases hneg : o < 0
+  · simp only [hneg, if_true, Char.reduceEq, or_true, Option.some.injEq]
+    omega
+  · simp only [hneg, if_false, if_true, Char.reduceEq, true_or, Option.some.injEq]
+    omega
+
+theorem fmtOffset_head (o : Int) : ∃ tl, fmtOffset o = (if o < 0 then '-' else '+') :: tl := ⟨_, rfl⟩
+
+theorem fracZone_nofrac {o : Int} (hmin : o % 60 = 0) (h1 : -86400 < o) (h2 : o < 86400) :
+    fracZone? (fmtOffset o) = some (0, o) := by
+  have hz := zone_fmtOffset hmin h1 h2
+  obtain ⟨tl, htl⟩ := fmtOffset_head o
+  rw [htl] at hz ⊢
+  by_cases hneg : o < 0
+  · simp only [hneg, if_true] at hz ⊢
+    simp only [fracZone?, Char.reduceEq, if_false, hz, Option.map_some]
+  · simp only [hneg, if_false] at hz ⊢
+    simp only [fracZone?, Char.reduceEq, if_false, hz, Option.map_some]
+
+theorem frac_pad3 {n : Nat} (h : n < 1000) : frac? (pad3 n) = some (n * 1000) := by
+  simp only [frac?, pad3, List.length_cons, List.length_nil, List.mapM_cons, List.mapM_nil, digit?_digitChar,
+    Option.pure_def, Option.bind_eq_bind, Option.bind_some, Option.map_some]
+  simp
+  omega
+
+theorem fracZone_frac {o : Int} {n : Nat} (hn : n < 1000) (hmin : o % 60 = 0) (h1 : -86400 < o) (h2 : o < 86400) :
+    fracZone? ('.' :: (pad3 n ++ fmtOffset o)) = some (n * 1000, o) := by
+  have hz := zone_fmtOffset hmin h1 h2
+  have hf := frac_pad3 hn
+  obtain ⟨tl, htl⟩ := fmtOffset_head o
+  have hs := sign_not_digit o
+  rw [htl] at hz ⊢
+  simp only [fracZone?, if_true, pad3, List.cons_append, List.nil_append, List.takeWhile_cons, List.dropWhile_cons, digit?_digitChar,
+    Option.isSome_some, if_true, hs, Bool.false_eq_true, if_false]
+  simp only [pad3] at hf
+  simp only [hf, hz, Option.bind_eq_bind, Option.bind_some, Option.pure_def]
+
+/-- the text `value_string` produces scans back to its own fields -/
+theorem scan_format {t : DT} (hv : t.Valid) {o : Int} (hmin : o % 60 = 0) (h1 : -86400 < o) (h2 : o < 86400) :
+    scanDate (isoFormatWith o t) = none ∧
+    scanDateTime (isoFormatWith o t) =
+      some ⟨t.year.toNat, t.month.toNat, t.day.toNat, t.hour.toNat, t.minute.toNat, t.second.toNat, t.ms.toNat * 1000, o⟩ := by
+  obtain ⟨y1, y2, m1, m2, d1, d2, a1, a2, b1, b2, c1, c2, e1, e2⟩ := hv
+  have hY : t.year.toNat < 10000 := by omega
+  have hM : t.month.toNat < 100 := by omega
+  have hdim : daysInMonth t.year t.month ≤ 31 := by
+    obtain ⟨k, hk, _, k2, _⟩ := mdays_dbm (isLeap t.year) m1 m2
+    rw [monthrange_some hk]; exact k2
+  have hD : t.day.toNat < 100 := by omega
+  have hH : t.hour.toNat < 100 := by omega
+  have hI : t.minute.toNat < 100 := by omega
+  have hS : t.second.toNat < 100 := by omega
+  have hms : t.ms.toNat < 1000 := by omega
+  have hfz : fracZone? ((if t.ms = 0 then [] else '.' :: pad3 t.ms.toNat) ++ fmtOffset o) = some (t.ms.toNat * 1000, o) := by
+    by_cases h0 : t.ms = 0
+    · simp only [h0, if_true, List.nil_append, fracZone_nofrac hmin h1 h2]; rfl
+    · simp only [h0, if_false, List.cons_append, fracZone_frac hms hmin h1 h2]
+  constructor
+  · simp [isoFormatWith, pad4, pad2, scanDate]
+  · simp only [isoFormatWith, pad4, pad2, List.cons_append, List.nil_append, scanDateTime, num4?_pad hY, num2?_pad hM,
+      num2?_pad hD, num2?_pad hH, num2?_pad hI, num2?_pad hS, hfz, Option.bind_eq_bind, Option.bind_some, Option.pure_def]
+
+/-- **C16 / ISO round trip — PARTIAL.** Full statement of the property: "for every datetime `t` that exists in the process
+time zone (whole-minute UTC offset), `datetimeISOParse(datetimeISOFormat(t)) = t` to the millisecond, whatever the zone".
+Proved here: for ANY pair of offset functions `offL` (seconds east of UTC that `astimezone()` picks for a naive local time,
+argument = local milliseconds) and `offU` (offset in force at a UTC instant) and every well-formed `t`,
+`isoParse offU (isoFormat offL t) = some t`, under the explicit hypotheses
+* `hmin`  the offset is a whole number of minutes (the property's carve-out; `iso_offset_seconds_lost` shows it is needed),
+* `hlo/hhi`  |offset| < 24 h (true of every `tzinfo`; needed for the two-digit hour field),
+* `hexists`  the local time exists: the instant `t − offL t` maps back to the same offset (`astimezone` round trip),
+* `hutc`  that UTC instant lies in years 1..9999 (fails only within a day of the ends of the range).
+What is missing for the unqualified statement: `astimezone()` over the OS zone database is not modelled — that
+`offL`/`offU` are what CPython computes is an assumption, sampled per zone by the `dt-iso` stream. -/
+theorem iso_roundtrip_partial (offL offU : Int → Int) (t : DT) (hv : t.Valid)
+    (hmin : offL (toLocalMs t) % 60 = 0)
+    (hlo : -86400 < offL (toLocalMs t)) (hhi : offL (toLocalMs t) < 86400)
+    (hexists : offU (toLocalMs t - offL (toLocalMs t) * 1000) = offL (toLocalMs t))
+    (hutc : (ofLocalMs (toLocalMs t - offL (toLocalMs t) * 1000)).isSome = true) :
+    isoParse offU (isoFormat offL t) = some t := by
+  obtain ⟨hd, hdt⟩ := scan_format hv hmin hlo hhi
+  obtain ⟨u, hu⟩ := Option.isSome_iff_exists.1 hutc
+  have hmk : mkDT (t.year.toNat : Int) t.month.toNat t.day.toNat t.hour.toNat t.minute.toNat t.second.toNat
+      ((t.ms.toNat * 1000 : Nat) / 1000 : Int) = some t := by
+    obtain ⟨y1, y2, m1, m2, d1, d2, a1, a2, b1, b2, c1, c2, e1, e2⟩ := hv
+    have e : ((t.ms.toNat * 1000 : Nat) / 1000 : Int) = t.ms := by omega
+    rw [e, Int.toNat_of_nonneg (by omega), Int.toNat_of_nonneg (by omega), Int.toNat_of_nonneg (by omega),
+      Int.toNat_of_nonneg a1, Int.toNat_of_nonneg b1, Int.toNat_of_nonneg c1]
+    simp only [mkDT, y1, y2, m1, m2, d1, d2, a1, a2, b1, b2, c1, c2, e1, e2, and_self, if_true]
+  simp only [isoParse, isoFormat, hd, hdt, hmk, hu, hexists]
+  have : toLocalMs t - offL (toLocalMs t) * 1000 + offL (toLocalMs t) * 1000 = toLocalMs t := by omega
+  rw [this]
+  exact ofLocalMs_toLocalMs hv
+
+/-- non-vacuity of `iso_roundtrip_partial`: Kathmandu (+05:45) with milliseconds, New York standard time without -/
+example : isoFormatWith 20700 ⟨2024, 2, 29, 1, 2, 3, 45⟩ = "2024-02-29T01:02:03.045+05:45".toList ∧
+    isoParse (fun _ => 20700) "2024-02-29T01:02:03.045+05:45".toList = some ⟨2024, 2, 29, 1, 2, 3, 45⟩ ∧
+    isoFormatWith (-18000) ⟨124, 12, 31, 23, 59, 59, 0⟩ = "0124-12-31T23:59:59-05:00".toList ∧
+    isoParse (fun _ => -18000) "0124-12-31T23:59:59-05:00".toList = some ⟨124, 12, 31, 23, 59, 59, 0⟩ ∧
+    isoParse (fun _ => 20700) "2024-01-01T00:00:00.999999Z".toList = some ⟨2024, 1, 1, 5, 45, 0, 999⟩ := by decide +kernel
+
+/-- the whole-minute hypothesis cannot be dropped: under New York local mean time (−4:56:02) the seconds of the offset are
+not printed, and the text parses to a datetime two seconds earlier -/
+theorem iso_offset_seconds_lost :
+    isoFormatWith (-17762) ⟨1850, 1, 1, 0, 0, 0, 0⟩ = "1850-01-01T00:00:00-04:56".toList ∧
+    isoParse (fun _ => -17762) (isoFormatWith (-17762) ⟨1850, 1, 1, 0, 0, 0, 0⟩) = some ⟨1849, 12, 31, 23, 59, 58, 0⟩ := by
+  decide +kernel
+
+
+/-! ### ISO text: rejection -/
+
+/-- an ASCII decimal digit -/
+def IsDigit (c : Char) : Prop := 48 ≤ c.toNat ∧ c.toNat ≤ 57
+
+theorem digit?_some {c : Char} {k : Nat} (h : digit? c = some k) : IsDigit c := by
+  unfold digit? at h; split at h
+  · assumption
+  · simp at h
+
+theorem digit?_isSome {c : Char} (h : (digit? c).isSome = true) : IsDigit c := by
+  obtain ⟨k, hk⟩ := Option.isSome_iff_exists.1 h
+  exact digit?_some hk
+
+theorem num2?_some {a b : Char} {n : Nat} (h : num2? a b = some n) : IsDigit a ∧ IsDigit b := by
+  simp only [num2?, Option.bind_eq_bind, Option.bind_eq_some_iff, Option.pure_def, Option.some.injEq] at h
+  obtain ⟨x, hx, y, hy, _⟩ := h
+  exact ⟨digit?_some hx, digit?_some hy⟩
+
+theorem num4?_some {a b c d : Char} {n : Nat} (h : num4? a b c d = some n) : IsDigit a ∧ IsDigit b ∧ IsDigit c ∧ IsDigit d := by
+  simp only [num4?, Option.bind_eq_bind, Option.bind_eq_some_iff, Option.pure_def, Option.some.injEq] at h
+  obtain ⟨x, hx, y, hy, _⟩ := h
+  exact ⟨(num2?_some hx).1, (num2?_some hx).2, (num2?_some hy).1, (num2?_some hy).2⟩
+
+/-- `^\d{4}-\d{2}-\d{2}\Z` (ASCII) -/
+def DateShape (cs : List Char) : Prop :=
+  ∃ y1 y2 y3 y4 m1 m2 d1 d2, cs = [y1, y2, y3, y4, '-', m1, m2, '-', d1, d2] ∧
+    IsDigit y1 ∧ IsDigit y2 ∧ IsDigit y3 ∧ IsDigit y4 ∧ IsDigit m1 ∧ IsDigit m2 ∧ IsDigit d1 ∧ IsDigit d2
+
+/-- `(?:Z|[+-]\d{2}:\d{2})` -/
+def ZoneShape (z : List Char) : Prop :=
+  z = ['Z'] ∨ ∃ sg h1 h2 m1 m2, z = [sg, h1, h2, ':', m1, m2] ∧ (sg = '+' ∨ sg = '-') ∧
+    IsDigit h1 ∧ IsDigit h2 ∧ IsDigit m1 ∧ IsDigit m2
+
+/-- `(?:\.\d{1,6})?` -/
+def FracShape (f : List Char) : Prop :=
+  f = [] ∨ ∃ ds, f = '.' :: ds ∧ 1 ≤ ds.length ∧ ds.length ≤ 6 ∧ ∀ c ∈ ds, IsDigit c
+
+/-- `^\d{4}-\d{2}-\d{2}T\d{2}:\d{2}:\d{2}(?:\.\d{1,6})?(?:Z|[+-]\d{2}:\d{2})\Z` (ASCII) -/
+def DateTimeShape (cs : List Char) : Prop :=
+  ∃ y1 y2 y3 y4 m1 m2 d1 d2 h1 h2 i1 i2 s1 s2 f z,
+    cs = y1 :: y2 :: y3 :: y4 :: '-' :: m1 :: m2 :: '-' :: d1 :: d2 :: 'T' :: h1 :: h2 :: ':' :: i1 :: i2 :: ':' :: s1 :: s2 :: (f ++ z) ∧
+    IsDigit y1 ∧ IsDigit y2 ∧ IsDigit y3 ∧ IsDigit y4 ∧ IsDigit m1 ∧ IsDigit m2 ∧ IsDigit d1 ∧ IsDigit d2 ∧
+    IsDigit h1 ∧ IsDigit h2 ∧ IsDigit i1 ∧ IsDigit i2 ∧ IsDigit s1 ∧ IsDigit s2 ∧ FracShape f ∧ ZoneShape z
+
+theorem scanDate_shape {cs : List Char} {r : Nat × Nat × Nat} (h : scanDate cs = some r) : DateShape cs := by
+  unfold scanDate at h
+  split at h
+  · rename_i y1 y2 y3 y4 m1 m2 d1 d2
+    simp only [Option.bind_eq_bind, Option.bind_eq_some_iff, Option.pure_def, Option.some.injEq] at h
+    obtain ⟨y, hy, mo, hmo, d, hd, _⟩ := h
+    have := num4?_some hy
+    exact ⟨y1, y2, y3, y4, m1, m2, d1, d2, rfl, this.1, this.2.1, this.2.2.1, this.2.2.2, (num2?_some hmo).1, (num2?_some hmo).2,
+      (num2?_some hd).1, (num2?_some hd).2⟩
+  · simp at h
+
+theorem zone?_shape {z : List Char} {o : Int} (h : zone? z = some o) :
+    ZoneShape z ∧ -86400 < o ∧ o < 86400 ∧ o % 60 = 0 := by
+  unfold zone? at h
+  split at h
+  · simp only [Option.some.injEq] at h; subst h
+    exact ⟨Or.inl rfl, by omega, by omega, by omega⟩
+  · rename_i sg h1 h2 m1 m2
+    split at h
+    · rename_i hsg
+      simp only [Option.bind_eq_bind, Option.bind_eq_some_iff] at h
+      obtain ⟨hh, hhh, mm, hmm, h⟩ := h
+      split at h
+      · rename_i hr
+        simp only [Option.some.injEq] at h
+        refine ⟨Or.inr ⟨sg, h1, h2, m1, m2, rfl, hsg, (num2?_some hhh).1, (num2?_some hhh).2, (num2?_some hmm).1, (num2?_some hmm).2⟩, ?_⟩
+        split at h <;> (subst h; omega)
+      · simp at h
+    · simp at h
+  · simp at h
+
+theorem mem_takeWhile_true {p : Char → Bool} : ∀ {l : List Char} {a : Char}, a ∈ l.takeWhile p → p a = true
+  | [], a, h => by simp at h
+  | x :: xs, a, h => by
+    by_cases hx : p x = true
+    · simp only [List.takeWhile_cons, hx, if_true, List.mem_cons] at h
+      rcases h with h | h
+      · subst h; exact hx
+      · exact mem_takeWhile_true h
+    · simp [hx] at h
+
+theorem frac?_shape {ds : List Char} {us : Nat} (h : frac? ds = some us) : 1 ≤ ds.length ∧ ds.length ≤ 6 := by
+  unfold frac? at h
+  split at h
+  · simp at h
+  · omega
+
+theorem fracZone?_shape {cs : List Char} {us : Nat} {o : Int} (h : fracZone? cs = some (us, o)) :
+    ∃ f z, cs = f ++ z ∧ FracShape f ∧ ZoneShape z ∧ -86400 < o ∧ o < 86400 ∧ o % 60 = 0 := by
+  unfold fracZone? at h
+  split at h
+  · simp at h
+  · rename_i c rest
+    split at h
+    · rename_i hc
+      subst hc
+      simp only [Option.bind_eq_bind, Option.bind_eq_some_iff, Option.pure_def, Option.some.injEq, Prod.mk.injEq] at h
+      obtain ⟨us', hus, o', ho, _, e2⟩ := h
+      subst e2
+      have hz := zone?_shape ho
+      have hf := frac?_shape hus
+      refine ⟨'.' :: rest.takeWhile (fun c => (digit? c).isSome), rest.dropWhile (fun c => (digit? c).isSome), ?_, ?_, hz⟩
+      · simp only [List.cons_append, List.takeWhile_append_dropWhile]
+      · refine Or.inr ⟨_, rfl, hf.1, hf.2, ?_⟩
+        intro c hc
+        exact digit?_isSome (mem_takeWhile_true hc)
+    · simp only [Option.map_eq_some_iff, Prod.mk.injEq] at h
+      obtain ⟨o', ho, _, e2⟩ := h
+      subst e2
+      exact ⟨[], c :: rest, rfl, Or.inl rfl, zone?_shape ho⟩
+
+theorem scanDateTime_shape {cs : List Char} {f : IsoFields} (h : scanDateTime cs = some f) :
+    DateTimeShape cs ∧ -86400 < f.off ∧ f.off < 86400 ∧ f.off % 60 = 0 := by
+  unfold scanDateTime at h
+  split at h
+  · rename_i y1 y2 y3 y4 m1 m2 d1 d2 h1 h2 i1 i2 s1 s2 rest
+    simp only [Option.bind_eq_bind, Option.bind_eq_some_iff, Option.pure_def, Option.some.injEq] at h
+    obtain ⟨y, hy, mo, hmo, d, hd, hh, hhh, mi, hmi, s, hs, ⟨us, o⟩, hfz, hf⟩ := h
+    obtain ⟨fr, z, hrest, hfr, hz, o1, o2, o3⟩ := fracZone?_shape hfz
+    have hy' := num4?_some hy
+    subst hf hrest
+    exact ⟨⟨y1, y2, y3, y4, m1, m2, d1, d2, h1, h2, i1, i2, s1, s2, fr, z, rfl, hy'.1, hy'.2.1, hy'.2.2.1, hy'.2.2.2,
+      (num2?_some hmo).1, (num2?_some hmo).2, (num2?_some hd).1, (num2?_some hd).2, (num2?_some hhh).1, (num2?_some hhh).2,
+      (num2?_some hmi).1, (num2?_some hmi).2, (num2?_some hs).1, (num2?_some hs).2, hfr, hz⟩, o1, o2, o3⟩
+  · simp at h
+
+theorem mkDT_some {y mo d h mi s ms : Int} {t : DT} (hk : mkDT y mo d h mi s ms = some t) :
+    t = ⟨y, mo, d, h, mi, s, ms⟩ ∧ t.Valid := by
+  unfold mkDT at hk
+  split at hk
+  · rename_i hc
+    simp only [Option.some.injEq] at hk
+    subst hk
+    exact ⟨rfl, hc⟩
+  · simp at hk
+
+/-- **C16 / rejection (shape).** Text on which `datetimeISOParse` does not return null has exactly one of the two
+anchored shapes over ASCII digits — nothing before, nothing after (no trailing newline), `T` and `Z` in upper case,
+1 to 6 fraction digits. Contrapositive: everything else parses to null. -/
+theorem iso_reject (offU : Int → Int) (cs : List Char) (t : DT) (h : isoParse offU cs = some t) :
+    DateShape cs ∨ DateTimeShape cs := by
+  unfold isoParse at h
+  split at h
+  · rename_i y mo d hd
+    exact Or.inl (scanDate_shape hd)
+  · split at h
+    · simp at h
+    · rename_i f hf
+      exact Or.inr (scanDateTime_shape hf).1
+
+/-- **C16 / rejection (fields).** … and its calendar fields are valid: year 1..9999, month 1..12, day within the month
+(so `2024-02-30` and `2024-13-01T00:00:00Z` are null), hour ≤ 23, minute ≤ 59, second ≤ 59, offset `hh ≤ 23`, `mm ≤ 59`;
+the result is a well-formed datetime. -/
+theorem iso_reject_fields (offU : Int → Int) (cs : List Char) (t : DT) (h : isoParse offU cs = some t) :
+    t.Valid ∧
+    ((∃ y mo d : Nat, scanDate cs = some (y, mo, d) ∧ t = ⟨y, mo, d, 0, 0, 0, 0⟩) ∨
+     (∃ f, scanDate cs = none ∧ scanDateTime cs = some f ∧
+        DT.Valid ⟨f.year, f.month, f.day, f.hour, f.minute, f.second, (f.us / 1000 : Nat)⟩ ∧
+        -86400 < f.off ∧ f.off < 86400 ∧ f.off % 60 = 0)) := by
+  unfold isoParse at h
+  split at h
+  · rename_i y mo d hd
+    have := mkDT_some h
+    exact ⟨this.2, Or.inl ⟨y, mo, d, hd, this.1⟩⟩
+  · rename_i hnone
+    split at h
+    · simp at h
+    · rename_i f hf
+      split at h
+      · simp at h
+      · rename_i t0 hk
+        simp only [] at h
+        split at h
+        · simp at h
+        · have hv := (toLocalMs_ofLocalMs h).1
+          have h0 := mkDT_some hk
+          refine ⟨hv, Or.inr ⟨f, hnone, hf, ?_, (scanDateTime_shape hf).2⟩⟩
+          have := h0.2; rw [h0.1] at this; exact this
+
+
+/-- non-vacuity: both shapes are inhabited, and the regression inputs of findings F10/F20 are rejected -/
+example : isoParse (fun _ => 0) "2024-02-29".toList = some ⟨2024, 2, 29, 0, 0, 0, 0⟩ ∧
+    isoParse (fun _ => 0) "2024-02-30".toList = none ∧
+    isoParse (fun _ => 0) "2024-13-01T00:00:00Z".toList = none ∧
+    isoParse (fun _ => 0) "2024-01-01\n".toList = none ∧
+    isoParse (fun _ => 0) "2024-01-01T00:00:00+00:60".toList = none ∧
+    isoParse (fun _ => 0) "2024-01-01T00:00:00.1234567Z".toList = none ∧
+    isoParse (fun _ => 0) "2024-01-01t00:00:00Z".toList = none ∧
+    isoParse (fun _ => 0) "2024-01-01T24:00:00Z".toList = none ∧
+    isoParse (fun _ => 0) "0001-01-01T00:00:00+00:01".toList = none := by decide +kernel
 
 end C16
